@@ -160,6 +160,79 @@ theorem atomic_partial (fs₀ : FS) (pre : Store) (txn : Txn) (b : Backend)
   have hb : b.fixed = true := by cases b <;> simp_all [Backend.fixed]
   exact atomic b hb fs₀ pre txn hview hload hwf k
 
+/-! ### the PulseStorage front end produces well-formed transactions -/
+
+/-- `PulseStorage.overwrite(top, n)` / `storage[top] = n` (with `fixes/PF-24.diff`): whatever the tree, if
+collecting it succeeds the resulting puts are children-first, refer only to entries that load, and touch
+no identifier twice. Hypotheses: the cache only holds stored entries; sub-templates taken from the storage
+load without `top` (the new content of `top` does not refer back to `top`). -/
+theorem collect_wf (b : Backend) (fs : FS) (pre : Store) (top : Id) (n : Node)
+    (hview : view b fs = some pre) (hcache : ∀ i, fs.cache.get i ≠ none → pre.get i ≠ none)
+    (hre : n.reusedOK (fun i => Loads (gerase pre.get top) i)) :
+    WFtxn b fs (.overwrite top n) pre ∧ WFtxn b fs (.setitem top n) pre := by
+  have hpres : ∀ i, presentB b fs i = true ↔ pre.get i ≠ none := by
+    intro i
+    have he : existsB b fs i = (pre.get i).isSome := by simp [existsB, hview]
+    simp only [presentB, he, Bool.or_eq_true]
+    constructor
+    · rintro (h | h)
+      · exact hcache i (by cases hc : fs.cache.get i <;> simp [hc] at h ⊢)
+      · cases hp : pre.get i <;> simp [hp] at h ⊢
+    · intro h
+      right
+      cases hp : pre.get i <;> simp [hp] at h ⊢
+  have key : ∀ r : Except Err (List (Id × Data)), r = collect (presentB b fs) top n →
+      WFops pre.get (match r.map Plan.puts with | .error _ => [] | .ok p => p.ops) ∧
+      ((match r.map Plan.puts with | .error _ => [] | .ok p => p.ops).map Op.id).Nodup := by
+    intro r hr
+    cases r with
+    | error e => simp [Except.map, WFops]
+    | ok ws =>
+      simp only [Except.map, Plan.ops]
+      exact collect_wf' pre.get top (presentB b fs) hpres n hre ws hr.symm
+  constructor
+  · unfold WFtxn txnOps plan
+    exact key _ rfl
+  · unfold WFtxn txnOps
+    by_cases h1 : n.id ≠ some top
+    · simp [plan, h1, WFops]
+    · by_cases h2 : (fs.cache.get top).isSome = true
+      · by_cases h3 : n.reused = true <;> simp [plan, h1, h2, h3, WFops, Plan.ops]
+      · by_cases h4 : existsB b fs top = true
+        · simp [plan, h1, h2, h4, WFops]
+        · have hp : plan b fs (.setitem top n) = (collect (presentB b fs) top n).map Plan.puts := by
+            simp only [plan, h1, h2, h4, if_false, Bool.false_eq_true]
+          rw [hp]
+          exact key _ rfl
+
+/-- atomicity of storing / overwriting a template tree, with hypotheses on the tree only -/
+theorem atomic_overwrite (b : Backend) (hb : b.fixed = true) (fs₀ : FS) (pre : Store) (top : Id) (n : Node)
+    (hview : view b fs₀ = some pre) (hload : AllLoad pre.get)
+    (hcache : ∀ i, fs₀.cache.get i ≠ none → pre.get i ≠ none)
+    (hre : n.reusedOK (fun i => Loads (gerase pre.get top) i)) :
+    ∀ k, LoadableFS b (run ((compileTxn b fs₀ (.overwrite top n)).1.take k) fs₀) pre
+      (finalStore b fs₀ (.overwrite top n) pre) :=
+  atomic b hb fs₀ pre _ hview hload (collect_wf b fs₀ pre top n hview hcache hre).1
+
+/-- PF-24: without the duplicate check the front end of the pinned tree turns the tree
+`top[x₁, x₂[y]]` (two different sub-templates named `x` = 1, `y` = 2, `top` = 3) into the puts
+`x ↦ doc(y), y, top`: not children-first, and a failure after the first put leaves `x` listed but unloadable
+(even on the dict backend) -/
+theorem children_first_counterexample :
+    let fs₀ := mkFS .dict [] []
+    let txn := Txn.store [(1, .doc 12 [2]), (2, .doc 20 []), (3, .doc 30 [1, 1])]
+    wfTxnB .dict fs₀ txn [] = false ∧
+    ¬ LoadableFS .dict (run ((compileTxn .dict fs₀ txn).1.take 1) fs₀) [] (finalStore .dict fs₀ txn []) := by
+  simp only [← loadableFSB_iff]
+  decide
+
+/-- … and with the check the same tree is rejected before anything is written -/
+theorem duplicate_identifier_rejected :
+    let n := Node.mk (some 3) 0 30 true false
+      [.mk (some 1) 1 10 true false [], .mk (some 1) 2 12 true false [.mk (some 2) 3 20 true false []]]
+    compileTxn .dict (mkFS .dict [] []) (.setitem 3 n) = ([], some .clash) := by
+  decide
+
 /-! ### the hypotheses are satisfiable (and the conclusion is not trivial) -/
 
 /-- overwriting a parent (4) with a new child (2) while 3 refers to the existing 1, zip backend -/
